@@ -112,8 +112,7 @@ def parse_criteria(criteria):
         return lambda a: op(a, val)
     else:
         if any(c in val for c in ('?', '*')):
-            # Then use fnmatch
-            return lambda a: fnmatch.fnmatch(val, a)
+            return lambda a: isinstance(a, string_types) and wildcard_match(a, val)
         else:
             return lambda a: a == to_number(val)
 
